@@ -82,6 +82,8 @@ class Exchange:
             rec["answered"] = False
             rec["raised"] = plan["raise_"].__name__
             exc = plan["raise_"]
+            if not isinstance(exc, type):
+                raise exc(kind)  # a factory: builds the exception the way betfairlightweight wraps a transport failure
             raise exc(None) if exc is bflw_exc.APIError else exc("injected")
         rec["answered"] = True
         return rec, plan
@@ -566,4 +568,30 @@ class LiveWorld:
                 pass
 
 
-API_ERRORS = {"APIError": bflw_exc.APIError, "InvalidResponse": bflw_exc.InvalidResponse, "StatusCodeError": bflw_exc.StatusCodeError}
+def _connection_dropped(kind):
+    import requests
+
+    return bflw_exc.APIError(None, "SportsAPING/v1.0/%sOrders" % kind.lower(), {"marketId": "-"}, requests.ConnectionError("('Connection aborted.', RemoteDisconnected('Remote end closed connection without response'))"))
+
+
+def _read_timeout(kind):
+    import requests
+
+    return bflw_exc.APIError(None, "SportsAPING/v1.0/%sOrders" % kind.lower(), {"marketId": "-"}, requests.ReadTimeout("read timed out"))
+
+
+def _api_error_reply(kind):
+    return bflw_exc.APIError({"error": {"code": -32099, "message": "ANGX-0003", "data": {"APINGException": {"errorCode": "TOO_MANY_REQUESTS"}}}}, "SportsAPING/v1.0/%sOrders" % kind.lower(), {"marketId": "-"})
+
+
+_connection_dropped.__name__ = "ConnectionDropped"
+_read_timeout.__name__ = "ReadTimeout"
+_api_error_reply.__name__ = "APIErrorReply"
+API_ERRORS = {
+    "APIError": bflw_exc.APIError,
+    "InvalidResponse": bflw_exc.InvalidResponse,
+    "StatusCodeError": bflw_exc.StatusCodeError,
+    "ConnectionDropped": _connection_dropped,
+    "ReadTimeout": _read_timeout,
+    "APIErrorReply": _api_error_reply,
+}
